@@ -41,23 +41,58 @@ func (h rangeHelper) includes(rel int) (bool, bool) {
 func extractRangeHelper(p *core.Prog, f *core.Fn) rangeHelper {
 	info := f.Info()
 	var h rangeHelper
-	var loop *ast.RangeStmt
+	// the scan loop: `for i, e := range list` or `for i := 0; i < len(list); i++`
+	var body *ast.BlockStmt
+	var idx, elem types.Object
+	var list ast.Expr
 	for _, st := range f.Decl.Body.List {
-		if rs, ok := st.(*ast.RangeStmt); ok {
-			loop = rs
+		switch l := st.(type) {
+		case *ast.RangeStmt:
+			body, list = l.Body, l.X
+			idx, elem = core.ObjOf(info, l.Key), core.ObjOf(info, l.Value)
+		case *ast.ForStmt:
+			init, okI := l.Init.(*ast.AssignStmt)
+			cond, okC := core.BinOp(l.Cond, token.LSS)
+			post, okP := l.Post.(*ast.IncDecStmt)
+			if okI && okC && okP && len(init.Lhs) == 1 && post.Tok == token.INC {
+				if z, isC := core.ConstInt(info, init.Rhs[0]); isC && z == 0 && core.ObjOf(info, cond.X) == core.ObjOf(info, init.Lhs[0]) && core.ObjOf(info, post.X) == core.ObjOf(info, init.Lhs[0]) {
+					if c, ok := ast.Unparen(cond.Y).(*ast.CallExpr); ok && core.CallName(info, c) == "builtin.len" {
+						body, list, idx = l.Body, c.Args[0], core.ObjOf(info, init.Lhs[0])
+					}
+				}
+			}
 		}
 	}
-	if loop == nil || len(loop.Body.List) != 1 {
+	if body == nil || len(body.List) != 1 {
 		h.why = "not a single scan loop"
 		return h
 	}
-	ifs, ok := loop.Body.List[0].(*ast.IfStmt)
-	if !ok || len(ifs.Body.List) != 1 {
+	ifs, ok := body.List[0].(*ast.IfStmt)
+	if !ok || len(ifs.Body.List) != 1 || ifs.Else != nil {
 		h.why = "loop body is not a single test"
 		return h
 	}
 	b, ok := core.BinOp(ifs.Cond, token.GEQ, token.GTR, token.LSS, token.LEQ, token.EQL)
-	if !ok || !strings.HasSuffix(core.Str(b.X), ".Timestamp") || core.ObjOf(info, b.Y) != f.Obj.Type().(*types.Signature).Params().At(0) {
+	param := f.Obj.Type().(*types.Signature).Params().At(0)
+	if ok && core.ObjOf(info, b.X) == param {
+		// bound OP element  ==  element OP' bound
+		b = &ast.BinaryExpr{X: b.Y, Y: b.X, Op: map[token.Token]token.Token{token.GEQ: token.LEQ, token.GTR: token.LSS, token.LSS: token.GTR, token.LEQ: token.GEQ, token.EQL: token.EQL}[b.Op]}
+	}
+	isElemTS := func(e ast.Expr) bool {
+		se, ok := ast.Unparen(resolveLocal(info, f.Decl.Body, e)).(*ast.SelectorExpr)
+		if !ok || se.Sel.Name != "Timestamp" {
+			return false
+		}
+		x := resolveLocal(info, f.Decl.Body, se.X)
+		if elem != nil && core.ObjOf(info, x) == elem {
+			return true
+		}
+		if ix, ok := ast.Unparen(x).(*ast.IndexExpr); ok && idx != nil && core.ObjOf(info, ix.Index) == idx && core.Str(ix.X) == core.Str(list) {
+			return true
+		}
+		return false
+	}
+	if !ok || !isElemTS(b.X) || core.ObjOf(info, b.Y) != param {
 		h.why = "test is not <element>.Timestamp OP <parameter>"
 		return h
 	}
@@ -72,7 +107,10 @@ func extractRangeHelper(p *core.Prog, f *core.Fn) rangeHelper {
 		h.why = "does not return a sub-slice"
 		return h
 	}
-	idx := core.ObjOf(info, loop.Key)
+	if core.Str(se.X) != core.Str(list) {
+		h.why = "returns a slice of something other than the scanned list"
+		return h
+	}
 	bound := se.High
 	if se.Low != nil && se.High == nil {
 		h.fromIdx = true
@@ -406,9 +444,9 @@ func c12Origin(r *core.Run, p *core.Prog) {
 		r.Check(rule, "ReadMetadata:"+which+":offset-matches-blocks", where, okOff, "the index offset must address the metadata of the first subtracted block (0 for the leading blocks, the index returned by BlocksAfter for the trailing ones)")
 		// the callback subtracts
 		okSub := false
-		if fl, ok := s.call.Args[4].(*ast.FuncLit); ok {
-			core.Walk(fl.Body, false, func(x ast.Node) bool {
-				if c, ok := x.(*ast.CallExpr); ok && core.CallName(info, c) == pkgGpfile+".Stats.Sub" {
+		if fb, fi := funcBodyOf(p, info, f.Decl.Body, s.call.Args[4]); fb != nil {
+			core.Walk(fb, false, func(x ast.Node) bool {
+				if c, ok := x.(*ast.CallExpr); ok && core.CallName(fi, c) == pkgGpfile+".Stats.Sub" {
 					okSub = true
 				}
 				return true
